@@ -1,7 +1,7 @@
 import SctpVerif.Proofs.Sender
 /-! How the sender operations change ONE in-flight chunk: a per-chunk predicate `P marked allInflight chunk` that is closed
 under the local transitions (acknowledged, miss indication, marked for retransmission when not abandoned, T3-path
-retransmission, fast retransmission, first transmission — each followed by `checkPartialReliabilityStatus`) holds for
+retransmission and fast retransmission (both only when not abandoned: D21 fix), first transmission — each followed by `checkPartialReliabilityStatus`) holds for
 every in-flight chunk and every chunk put on the wire, along `gather` / `sack` / `t3` / clock ticks. -/
 namespace SapiProofs
 open Gen SenderProofs
@@ -43,7 +43,8 @@ structure ClosedL (P : List Nat → List Nat → Sender.Chunk → Prop) : Prop w
 /-- … and under the transmissions of a gather in context `s` (each followed by `checkPartialReliabilityStatus`);
 `Q` is what is known of a chunk still in the pending queue -/
 structure Closed (s : Sender.St) (P : List Nat → List Nat → Sender.Chunk → Prop) (Q : Sender.Chunk → Prop) : Prop extends ClosedL P where
-  rtx : ∀ ab ai c, P ab ai c → c.retransmit = true → P (Sender.checkPR s ab (Sender.rtxUpd s c)) ai (Sender.rtxUpd s c)
+  rtx : ∀ ab ai c, P ab ai c → c.retransmit = true → Sender.isAbandoned ab ai c = false →
+    P (Sender.checkPR s ab (Sender.rtxUpd s c)) ai (Sender.rtxUpd s c)
   fast : ∀ ab ai c, P ab ai c → c.acked = false → Sender.isAbandoned ab ai c = false → fastRtx_skip c.nSent c.missIndicator = false →
     P (Sender.checkPR s ab (Sender.fastUpd s c)) ai (Sender.fastUpd s c)
   fresh : ∀ ab ai c tsn, Q c →
@@ -51,7 +52,7 @@ structure Closed (s : Sender.St) (P : List Nat → List Nat → Sender.Chunk →
 
 theorem Closed.congr {s s' : Sender.St} {P Q} (h : Closed s P Q) (hc : SameCtx s s') : Closed s' P Q :=
   { toClosedL := h.toClosedL
-    rtx := by intro ab ai c hp hr; rw [rtxUpd_congr hc, checkPR_congr hc]; exact h.rtx ab ai c hp hr
+    rtx := by intro ab ai c hp hr hna; rw [rtxUpd_congr hc, checkPR_congr hc]; exact h.rtx ab ai c hp hr hna
     fast := by intro ab ai c hp h1 h2 h3; rw [fastUpd_congr hc, checkPR_congr hc]; exact h.fast ab ai c hp h1 h2 h3
     fresh := by
       intro ab ai c tsn hq
@@ -104,10 +105,13 @@ theorem scanLoop_closed {B : Type} (s : Sender.St) (dec : Int → Sender.LoopAcc
       · exact r1 x h
 
 theorem rtxDecide_take {B : Type} (s : Sender.St) (allow : B → Int → Bool × B) (awnd : BitVec 32) (i : Int) (a : Sender.LoopAcc B)
-    (c : Sender.Chunk) (b : B) (bip : Int) (h : Sender.rtxDecide s allow awnd i a c = .take b bip) : c.retransmit = true := by
+    (c : Sender.Chunk) (b : B) (bip : Int) (h : Sender.rtxDecide s allow awnd i a c = .take b bip) :
+    c.retransmit = true ∧ Sender.isAbandoned a.aband s.allInflightMsgs c = false := by
   unfold Sender.rtxDecide at h
   by_cases hr : c.retransmit = true
-  · exact hr
+  · by_cases ha : Sender.isAbandoned a.aband s.allInflightMsgs c = true
+    · simp [hr, ha] at h
+    · exact ⟨hr, by simpa using ha⟩
   · simp [hr] at h
 
 theorem packAllow_not_skip {B : Type} (allow : B → Int → Bool × B) (b : B) (abip cb : Int) (full tooBig : Bool) :
@@ -147,7 +151,7 @@ theorem gatherRtx_closed (s : Sender.St) (orc : Sender.Oracle) (P : List Nat →
   have hmono : ∀ ab ab' c, (∀ m ∈ ab, m ∈ ab') → P ab s.allInflightMsgs c → P ab' s.allInflightMsgs c :=
     fun ab ab' c h hp => hP.mono ab ab' _ _ c h (fun _ hm => hm) hp
   have hloop := scanLoop_closed s (Sender.rtxDecide s orc.allow (rtx_awnd s.cwnd s.rwnd)) (Sender.rtxUpd s) s.allInflightMsgs P hmono
-    (fun i a c b bip hd hp => hP.rtx a.aband _ c hp (rtxDecide_take s orc.allow _ i a c b bip hd))
+    (fun i a c b bip hd hp => hP.rtx a.aband _ c hp (rtxDecide_take s orc.allow _ i a c b bip hd).1 (rtxDecide_take s orc.allow _ i a c b bip hd).2)
     0 (Sender.scanSplit s).2 { b := orc.b, aband := s.abandonedMsgs }
     (fun c hc => hin c (by rw [← hsplit]; exact List.mem_append_right _ hc))
     (fun e he => absurd he List.not_mem_nil)
